@@ -1,6 +1,6 @@
 use std::{fmt::Debug, time::Duration};
 
-use bytes::{BufMut, BytesMut};
+use bytes::{BufMut, Bytes, BytesMut};
 use if_chain::if_chain;
 use tokio::{
     io::{AsyncRead, AsyncReadExt, AsyncWrite, AsyncWriteExt},
@@ -31,6 +31,11 @@ pub struct Framed {
     codec: Codec,
     buffer: BytesMut,
     verify_version: bool,
+    // A keep-alive reply that is encoded but not yet completely written, and the packet that
+    // asked for it. They live here, not in the `read` future, so that dropping a pending `read`
+    // (i.e. in a `select!`) neither loses the packet nor leaves half a frame on the wire.
+    pending_reply: Bytes,
+    pending_packet: Option<Packet>,
 }
 
 impl Framed {
@@ -43,6 +48,8 @@ impl Framed {
             codec,
             buffer,
             verify_version: false,
+            pending_reply: Bytes::new(),
+            pending_packet: None,
         }
     }
 
@@ -83,9 +90,28 @@ impl Framed {
         Ok(size)
     }
 
+    /// Finish writing a keep-alive reply, if one is outstanding.
+    async fn flush_pending_reply(&mut self) -> Result<()> {
+        while !self.pending_reply.is_empty() {
+            if self.inner.write_buf(&mut self.pending_reply).await? == 0 {
+                return Err(std::io::Error::from(std::io::ErrorKind::WriteZero).into());
+            }
+        }
+
+        Ok(())
+    }
+
     /// Asynchronously wait for a packet from the inner network.
+    ///
+    /// This is cancellation safe: if the returned future is dropped before it completes, no
+    /// packet is lost and the next call carries on where this one stopped.
     pub async fn read(&mut self) -> Result<Packet> {
         loop {
+            self.flush_pending_reply().await?;
+            if let Some(packet) = self.pending_packet.take() {
+                return Ok(packet);
+            }
+
             if_chain! {
                 if !self.buffer.is_empty();
                 if let Some(packet) = self.codec.decode(&mut self.buffer)?;
@@ -98,7 +124,9 @@ impl Framed {
                     // keepalive
                     if let Some(pong) = packet.maybe_pong() {
                         tracing::debug!("Ping? Pong!");
-                        self.write(pong).await?;
+                        self.pending_reply = self.codec.encode(&pong)?;
+                        self.pending_packet = Some(packet);
+                        continue;
                     }
 
                     return Ok(packet);
@@ -133,6 +161,7 @@ impl Framed {
     /// Asynchronously write a packet to the inner network.
     pub async fn write<P: Into<Packet>>(&mut self, packet: P) -> Result<()> {
         let mut buf = self.codec.encode(&packet.into())?;
+        self.flush_pending_reply().await?;
         if !buf.is_empty() {
             self.inner.write_all_buf(&mut buf).await?;
         }
